@@ -56,7 +56,12 @@ THEOREMS = [
     'Nb.C09.saved_affine_close',
     'Nb.C09.generated_transform_rules_agree',
     'Nb.C09.wrap_of_mapped_proxy',
+    'Nb.C09.guard_view_overwrite_crashes',
     'Nb.C09.orig_view_overwrite_crashes',
+    'Nb.C09.baseNd_view_overwrite_crashes',
+    'Nb.C09.current_view_kinds_ok',
+    'Nb.C09.guard_safe_off_uncopied_views',
+    'Nb.C09.baseNd_guard_safe_off_hidden',
     'Nb.C09.orig_view_overwrite_crashes_witness',
     'Nb.C09.current_view_overwrite_ok',
     'Nb.C09.inst_guard_safe_off_views',
@@ -91,7 +96,8 @@ RULE = ('streams: wrap (load p, re-wrap the data as a NEW array image — plain 
         'spelling, for every mmap-able path x mmap mode x small/big); hdraffine (header sform/qform edited directly — to another affine or to the image\'s own affine with a '
         'different code — or via the image API, then first/second save to same- and other-flavour targets, for NIfTI-1/2 '
         'single and pair, MGH, SPM2); exh3x (suffixes over the ops on the SPM2 pair, NIfTI-2, compressed pair, .bz2, .zst '
-        'names incl. get_fdata(float32)); exh3w/exh4w (suffixes over re-wrap ops, loads and saves of the mmap-able '
+        'names incl. get_fdata(float32)); W10-W13 = views that reach the map only through a memoryview / array-interface '
+        'holder (as_strided, memoryview, sliding_window_view, np.frombuffer(mmap.mmap(file))); exh3w/exh4w (suffixes over re-wrap ops, loads and saves of the mmap-able '
         'names); selfsave (the repaired defect: load p, [ops], save p ... for every path x mmap x dtype x small/big '
         'shape); spelling (self-overwrite where load and save name the same file differently: absolute, relative, ./, '
         'sub/../, symlink, hard link, pair header name — all pairs of spellings, every path); exh3/exh4/exh5: first op load(p, mmap) then ALL suffixes over the op alphabet (27 ops: 12 loads, 6 '
@@ -231,7 +237,8 @@ def regen():
         return first_copy is not None and first_open is not None and first_copy < first_open
 
     def guard_kind(fn):
-        """the copy guard of a to_file_map body: 0 none / 1 `isinstance(data, np.memmap)` / 2 `maps_file(data)`"""
+        """the copy guard of a to_file_map body: 0 none / 1 `isinstance(data, np.memmap)` / `maps_file(data)`: the kind of
+        maps_file (2 ndarray-base chain, 3 owner chain, 9 unknown shape)"""
         tree = ast.parse(textwrap.dedent(inspect.getsource(fn)))
         kinds = []
         for node in ast.walk(tree):
@@ -243,39 +250,109 @@ def regen():
                 if not copies:
                     continue
                 if getattr(t.func, 'id', None) == 'maps_file' and [getattr(a, 'id', None) for a in t.args] == ['data']:
-                    kinds.append(2)
+                    kinds.append(maps_file_shape())
                 elif getattr(t.func, 'id', None) == 'isinstance' and 'memmap' in ast.dump(t):
                     kinds.append(1)
         return kinds[0] if len(kinds) == 1 else 0
 
-    def maps_file_follows_base():
-        """AST of volumeutils.maps_file: `while isinstance(arr, np.ndarray):` whose body returns True on
-        `isinstance(arr, np.memmap)` and steps `arr = arr.base`; then `return isinstance(arr, mmap.mmap)` — and the
-        function behaves so (maps_file_ok)"""
+    def maps_file_shape():
+        """AST of volumeutils.maps_file -> 2: `while isinstance(arr, np.ndarray):` returning True on
+        `isinstance(arr, np.memmap)`, stepping `arr = arr.base`, then `return isinstance(arr, mmap.mmap)` (ae98171b: ndarray
+        `.base` links only);  3: `while arr is not None:` returning True on `isinstance(arr, (np.memmap, mmap.mmap))`,
+        stepping `arr = arr.obj` for a memoryview else `arr = getattr(arr, 'base', None)`, then `return False` (8d96c629:
+        chain of owners);  9: anything else"""
         from nibabel import volumeutils
         f = getattr(volumeutils, 'maps_file', None)
         if f is None:
-            return False
+            return 9
         fn = ast.parse(textwrap.dedent(inspect.getsource(f))).body[0]
         body = [st for st in fn.body if not (isinstance(st, ast.Expr) and isinstance(st.value, ast.Constant))]
-        if len(body) != 2 or not isinstance(body[0], ast.While) or not isinstance(body[1], ast.Return):
-            return False
+        if len(body) != 2 or not isinstance(body[0], ast.While) or not isinstance(body[1], ast.Return) or body[0].orelse:
+            return 9
         arg = fn.args.args[0].arg
+        w, ret = body
 
-        def is_inst(e, mod, cls):
-            return (isinstance(e, ast.Call) and getattr(e.func, 'id', None) == 'isinstance' and len(e.args) == 2 and
-                    getattr(e.args[0], 'id', None) == arg and isinstance(e.args[1], ast.Attribute) and
-                    e.args[1].attr == cls and getattr(e.args[1].value, 'id', None) == mod)
-        w = body[0]
-        if not is_inst(w.test, 'np', 'ndarray') or w.orelse or len(w.body) != 2:
-            return False
-        i, a = w.body
-        ok_if = (isinstance(i, ast.If) and is_inst(i.test, 'np', 'memmap') and not i.orelse and len(i.body) == 1 and
-                 isinstance(i.body[0], ast.Return) and isinstance(i.body[0].value, ast.Constant) and
-                 i.body[0].value.value is True)
-        ok_step = (isinstance(a, ast.Assign) and [getattr(x, 'id', None) for x in a.targets] == [arg] and
-                   isinstance(a.value, ast.Attribute) and a.value.attr == 'base' and getattr(a.value.value, 'id', None) == arg)
-        return ok_if and ok_step and is_inst(body[1].value, 'mmap', 'mmap') and maps_file_ok()
+        def attr(e, mod, name):
+            return isinstance(e, ast.Attribute) and e.attr == name and getattr(e.value, 'id', None) == mod
+
+        def is_inst(e, classes):
+            """isinstance(<arg>, X) / isinstance(<arg>, (X, Y)) with exactly the classes given as (module, name)"""
+            if not (isinstance(e, ast.Call) and getattr(e.func, 'id', None) == 'isinstance' and len(e.args) == 2 and
+                    getattr(e.args[0], 'id', None) == arg and not e.keywords):
+                return False
+            c = e.args[1]
+            elts = c.elts if isinstance(c, ast.Tuple) else [c]
+            got = sorted((getattr(getattr(x, 'value', None), 'id', None), getattr(x, 'attr', getattr(x, 'id', None)))
+                         for x in elts)
+            return got == sorted(classes)
+
+        def ret_true(st):
+            return (isinstance(st, ast.If) and not st.orelse and len(st.body) == 1 and isinstance(st.body[0], ast.Return) and
+                    isinstance(st.body[0].value, ast.Constant) and st.body[0].value.value is True)
+
+        def assign_to_arg(st):
+            return isinstance(st, ast.Assign) and [getattr(x, 'id', None) for x in st.targets] == [arg]
+        # ae98171b
+        if is_inst(w.test, [('np', 'ndarray')]) and len(w.body) == 2 and ret_true(w.body[0]) and \
+                is_inst(w.body[0].test, [('np', 'memmap')]) and assign_to_arg(w.body[1]) and \
+                attr(w.body[1].value, arg, 'base') and is_inst(ret.value, [('mmap', 'mmap')]):
+            return 2
+        # 8d96c629
+        t = w.test
+        not_none = (isinstance(t, ast.Compare) and getattr(t.left, 'id', None) == arg and len(t.ops) == 1 and
+                    isinstance(t.ops[0], ast.IsNot) and isinstance(t.comparators[0], ast.Constant) and
+                    t.comparators[0].value is None)
+        if not_none and len(w.body) == 2 and ret_true(w.body[0]) and \
+                is_inst(w.body[0].test, [('np', 'memmap'), ('mmap', 'mmap')]) and \
+                isinstance(ret.value, ast.Constant) and ret.value.value is False:
+            st = w.body[1]
+            if isinstance(st, ast.If) and is_inst(st.test, [(None, 'memoryview')]) and len(st.body) == 1 and \
+                    len(st.orelse) == 1 and assign_to_arg(st.body[0]) and attr(st.body[0].value, arg, 'obj') and \
+                    assign_to_arg(st.orelse[0]):
+                v = st.orelse[0].value
+                if isinstance(v, ast.Call) and getattr(v.func, 'id', None) == 'getattr' and len(v.args) == 3 and \
+                        getattr(v.args[0], 'id', None) == arg and getattr(v.args[1], 'value', None) == 'base' and \
+                        isinstance(v.args[2], ast.Constant) and v.args[2].value is None:
+                    return 3
+        return 9
+
+    def maps_file_probe():
+        """the REAL maps_file on one array of each kind -> rows (kind 0 np.memmap instance / 1 view through ndarray `.base`
+        links / 2 view through a memoryview or array-interface holder / 3 owns its memory; ground truth: shares memory
+        with the map; answer of maps_file)"""
+        import mmap
+        import tempfile
+        from numpy.lib.stride_tricks import as_strided, sliding_window_view
+        from nibabel import volumeutils
+        f = getattr(volumeutils, 'maps_file', None)
+        rows = []
+        if f is None:
+            return rows
+        with tempfile.TemporaryDirectory() as td:
+            fn = os.path.join(td, 'm.bin')
+            np.arange(4 * 3 * 2, dtype='<i2').tofile(fn)
+            m = np.memmap(fn, dtype='<i2', mode='c', shape=(4, 3, 2), order='F')
+            fh = open(fn, 'rb')
+            raw = mmap.mmap(fh.fileno(), 0, access=mmap.ACCESS_READ)
+            ref_raw = np.frombuffer(raw, dtype=np.uint8)
+            probes = [(0, m, m), (1, np.asarray(m), m), (1, np.asarray(m)[::1].T.T, m),
+                      (2, np.frombuffer(raw, dtype='<i2', count=24).reshape((4, 3, 2), order='F'), ref_raw),
+                      (2, np.asarray(memoryview(m)), m), (2, as_strided(m, shape=m.shape, strides=m.strides), m),
+                      (2, sliding_window_view(m, (1, 1, 1))[..., 0, 0, 0], m),
+                      (3, np.array(m), m), (3, np.arange(24, dtype='<i2'), m)]
+            for kind, arr, ref in probes:
+                try:
+                    ans = bool(f(arr))
+                except Exception:
+                    ans = not np.shares_memory(arr, ref)      # an exception counts as a wrong answer
+                rows.append((kind, bool(np.shares_memory(arr, ref)), ans))
+            del probes, arr, ref, ref_raw, m
+            try:
+                raw.close()
+            except BufferError:
+                pass
+            fh.close()
+        return rows
 
     class_table = []
     for k in all_image_classes:
@@ -390,16 +467,22 @@ def regen():
            'def bestAffineOrder : List (Nat × Nat) := [' + ', '.join('(%d, %d)' % r for r in best_order()[0]) + ']',
            'def bestAffineFallback : Nat := %d' % best_order()[1], '',
            '/-- copy guard of `AnalyzeImage.to_file_map` / `MGHImage.to_file_map` (AST): 0 none / 1 `isinstance(data,',
-           '    np.memmap)` / 2 `maps_file(data)`; and: `volumeutils.maps_file` is the loop over `.base` with an np.memmap',
-           '    instance test that ends in an `mmap.mmap` test (AST + behaviour on a memmap, three views, a copy) -/',
+           '    np.memmap)` / `maps_file(data)` with `volumeutils.maps_file` (AST) 2 the loop over ndarray `.base` links',
+           '    (ae98171b) / 3 the loop over owners: memmap|mmap test, memoryview -> .obj, else getattr(arr, "base", None)',
+           '    (8d96c629) / 9 another shape -/',
            'def analyzeGuard : Nat := %d' % guard_kind(nib.AnalyzeImage.to_file_map),
-           'def mghGuard : Nat := %d' % guard_kind(nib.MGHImage.to_file_map),
-           f'def mapsFileFollowsBase : Bool := {b(maps_file_follows_base())}', '',
+           'def mghGuard : Nat := %d' % guard_kind(nib.MGHImage.to_file_map), '',
+           '/-- the real `maps_file` probed on: a memmap; asarray(m); asarray(m)[::1].T.T; frombuffer(mmap.mmap);',
+           '    asarray(memoryview(m)); as_strided(m); sliding_window_view(m)[..., 0, 0, 0]; np.array(m); a fresh array —',
+           '    (kind 0 np.memmap instance / 1 ndarray-base view / 2 view through memoryview or array-interface holder /',
+           '    3 owns its memory, np.shares_memory with the map, answer of maps_file) -/',
+           'def mapsFileProbe : List (Nat × Bool × Bool) := [' +
+           ', '.join('(%d, %s, %s)' % (k, b(t), b(a)) for k, t, a in maps_file_probe()) + ']', '',
            'end Nb.C09.Gen', '']
     common.write_if_changed(os.path.join(common.LEAN, 'NibabelModel', 'Generated', 'C09.lean'), '\n'.join(src))
     return ['Generated.C09.pathTable', 'Generated.C09.mghDtypes', 'Generated.C09.copiesBeforeOpen',
             'Generated.C09.classTable', 'Generated.C09.saveSpecial', 'Generated.C09.hasToBytes',
-            'Generated.C09.affine2headerCodes', 'Generated.C09.bestAffineOrder', 'Generated.C09.copyGuard']
+            'Generated.C09.affine2headerCodes', 'Generated.C09.bestAffineOrder', 'Generated.C09.copyGuard', 'Generated.C09.mapsFileProbe']
 
 
 # ------------------------------------------------------------------------------------------- cases
@@ -432,7 +515,7 @@ AA, AB = 'A%d' % OTHER_A, 'A%d' % OTHER_B
 FULL_ALPHA = ([f'L{p}{m}' for p in range(6) for m in (1, 0)] + [f'S{p}' for p in range(6)] +
               ['Di16', 'Df32', 'Df64', 'F', 'U', 'E1', AA, HB, 'B'])
 # re-wrap ops among loads / saves of the mmap-able single-file, pair and MGH names
-W_ALPHA = ['W0', 'W1', 'W9', 'W4', 'S0', 'S2', 'S3', 'S4', 'F', 'U', 'Df32', 'L01', 'L31', 'L41', HB]
+W_ALPHA = ['W0', 'W1', 'W9', 'W10', 'W13', 'S0', 'S2', 'S3', 'S4', 'F', 'U', 'Df32', 'L01', 'L31', 'L41', HB]
 SMALL_ALPHA = [f'L{p}1' for p in (0, 3, 4, 5)] + [f'S{p}' for p in range(6)] + ['Df32', 'F', 'U', HB]
 # the names added to the alphabet: SPM2 pair, NIfTI-2, compressed pair, .bz2, .zst (+ a.img for Nifti2Pair, a.nii)
 X_ALPHA = ([f'L{c}1' for c in '36789a'] + [f'S{c}' for c in '0346789a'] +
@@ -500,6 +583,7 @@ def spelling_cases():
 
 
 PLAIN = [p for p in range(NP) if p not in COMPRESSED]     # names whose file can be memory mapped
+NW = 14                        # re-wrap variants W0 … W13
 
 
 def wrap_cases():
@@ -509,7 +593,7 @@ def wrap_cases():
     for p in PLAIN:
         c, q = PCH[p], PCH[(p + 2) % NP]
         for m in (1, 2, 0):
-            for k in range(10):
+            for k in range(NW):
                 for big in ((False, True) if m == 1 else (False,)):
                     init = list(INIT_I16)
                     init[p] = 'f64' if (k == 9 or (k + p) % 4 == 0) and p not in MGH_PATHS else \
@@ -517,11 +601,11 @@ def wrap_cases():
                     hs = [[f'L{c}{m}', f'W{k}', f'S{c}'],
                           [f'L{c}{m}', f'W{k}', f'S{q}', f'S{c}', 'F'],
                           [f'L{c}{m}', 'F', f'W{k}', f'S{c}@{1 + (k + p) % 4}', 'F', f'S{c}'],
-                          [f'L{c}{m}', f'W{k}', f'W{(k + 3) % 10}', f'S{c}@8', 'B']]
+                          [f'L{c}{m}', f'W{k}', f'W{(k + 3) % NW}', f'S{c}@8', 'B']]
                     if p in IMG_PATHS:
                         hs.append([f'L{c}{m}@6', f'W{k}', f'S{c}@6'])
                     if m == 1 and not big:
-                        hs.append([f'L{c}1', f'W{k}', HA, f'S{q}', f'L{q}1', f'W{(k + 1) % 10}', f'S{c}', f'S{q}'])
+                        hs.append([f'L{c}1', f'W{k}', HA, f'S{q}', f'L{q}1', f'W{(k + 1) % NW}', f'S{c}', f'S{q}'])
                     for h in (hs if not big else hs[:2]):
                         out.append(mk_case(init, h, big, 'wrap'))
     return out
@@ -608,7 +692,7 @@ def rand_op(rng):
     if r < 0.95:
         return 'H%d' % rng.choice([OTHER_A, OTHER_B, 0, 3, 7])
     if r < 0.98:
-        return 'W%d' % rng.randrange(10)
+        return 'W%d' % rng.randrange(NW)
     return 'B'
 
 
@@ -835,9 +919,10 @@ def _layout_track(d, line):
         elif op[0] == 'W' and tok == 'ok':
             # the new image reads the source file only through a view of the map / the proxy
             mapped = mm and src is not None and src not in COMPRESSED and src_lay is not None and not src_lay[1]
-            k = int(op[1])
-            if k == 2:
-                pass
+            k = int(op[1:])
+            rawmap = (k == 13 and src is not None and src not in COMPRESSED and src_lay is not None and not src_lay[1])
+            if k == 2 or rawmap:
+                pass                              # still reads the source file (proxy / a map built from the path)
             elif k == 8 or not mapped or (k == 9 and not (src_lay[0] == 'f64' and not src_lay[2])):
                 src = src_lay = None          # owns its memory: nothing can go stale
             cached = set()
@@ -1084,6 +1169,7 @@ def _child(jobfile, outfile, workdir):
             else:
                 nib.save(img, target)
         img = None
+        mview = None
         live = None            # snapshot of the data the live image had when loaded
         last_tok = {}          # path index -> content token right after the last save onto it
         dead = False
@@ -1153,13 +1239,32 @@ def _child(jobfile, outfile, workdir):
                 tok = 'ok'
             elif c == 'W':
                 # replace the live image by a NEW array image of the same class built from its data
-                kk = int(op[1])
+                kk = int(op[1:])
                 try:
                     do = img.dataobj
+                    if kk >= 10:
+                        from numpy.lib.stride_tricks import as_strided, sliding_window_view
+                        mview = np.asanyarray(do)
+                    raw_ok = (kk == 13 and isinstance(do, nib.arrayproxy.ArrayProxy) and isinstance(do.file_like, str) and
+                              not do.file_like.endswith(('.gz', '.bz2', '.zst', '.mgz')) and
+                              (do.slope, do.inter) == (1.0, 0.0))
+
+                    def from_raw_map():
+                        """np.frombuffer over a fresh mmap.mmap of the proxy's file (no np.memmap anywhere)"""
+                        import mmap
+                        with open(do.file_like, 'rb') as fh:
+                            mm_ = mmap.mmap(fh.fileno(), 0, access=mmap.ACCESS_READ)
+                        return np.frombuffer(mm_, dtype=do.dtype, count=int(np.prod(do.shape)),
+                                             offset=do.offset).reshape(do.shape, order=do.order)
                     arr = {0: lambda: np.asarray(do), 1: lambda: np.asanyarray(do), 2: lambda: do,
                            3: lambda: np.asarray(do)[::1], 4: lambda: np.asarray(do).T.T,
                            5: lambda: np.asanyarray(do).view(np.ndarray), 6: lambda: np.asfortranarray(np.asanyarray(do)),
-                           7: lambda: np.asanyarray(do)[..., :], 8: lambda: np.array(do), 9: lambda: img.get_fdata()}[kk]()
+                           7: lambda: np.asanyarray(do)[..., :], 8: lambda: np.array(do), 9: lambda: img.get_fdata(),
+                           10: lambda: as_strided(mview, shape=mview.shape, strides=mview.strides),
+                           11: lambda: np.asarray(memoryview(mview)),
+                           12: lambda: sliding_window_view(mview, (1, 1, 1))[..., 0, 0, 0],
+                           13: lambda: from_raw_map() if raw_ok else
+                           as_strided(mview, shape=mview.shape, strides=mview.strides)}[kk]()
                     new = type(img)(arr, img.affine, img.header)
                     wok = new.get_filename() is None and data_id(np.array(new.dataobj), shape) != 'X'
                 except Exception as e:
@@ -1168,6 +1273,7 @@ def _child(jobfile, outfile, workdir):
                 if wok:
                     img, tok = new, 'ok'
                     del do, arr, new
+                    mview = None
                 else:
                     tok, dead = 'W:BAD', True
                     prob = prob or 'the re-wrapped image does not yield the image data'
